@@ -81,7 +81,9 @@ type Task struct {
 	exiting    bool
 	Urgent     bool // listed first in the canonical order when enabled (environment tasks whose default is "now")
 	openedIdle bool
-	waiting    int // consecutive decisions during which the task was enabled but not chosen
+	waiting    int  // consecutive decisions during which the task was enabled but not chosen
+	fresh      bool // arrived at its current point since the last decision
+	inflight   bool // blocked inside a real channel operation (ParkInside)
 }
 
 // Ended reports whether the task has finished.
@@ -111,6 +113,8 @@ type Exec struct {
 	released map[any]vc
 	locs     map[string]*locState
 	cancelVC map[<-chan struct{}]vc
+	inRecv   map[*object.Chan][]*Task // tasks blocked inside a receive, in blocking order
+	inSend   map[*object.Chan][]*Task // tasks blocked inside a send, in blocking order
 
 	prefix           []int
 	Choices          []int
@@ -175,6 +179,12 @@ type Scenario struct {
 	NoBranchAfterRoot bool
 	// AllowSelectRace: do not flag a channel operation whose context is cancelled while the channel case is also ready.
 	AllowSelectRace bool
+	// ParkInside: a task that arrives at a channel send / receive that cannot complete yet may, as
+	// an alternative to waiting at the scheduling point, enter the real operation and block inside
+	// it (offered once, in the decision that follows its arrival). It is woken by the send, receive
+	// or close of another task, so the implementation's "blocked, then woken" path is explored as
+	// well as its "ready on arrival" path. Scenarios that use it must not cancel contexts.
+	ParkInside bool
 }
 
 var cur atomic.Pointer[Exec]
@@ -437,6 +447,7 @@ func (x *Exec) Go(label string, fn func()) {
 type transition struct {
 	t       *Task
 	partner *Task
+	early   bool // the task enters the blocking operation although it cannot complete yet
 }
 
 func (x *Exec) quiesce() bool {
@@ -448,6 +459,7 @@ func (x *Exec) quiesce() bool {
 			switch ev.kind {
 			case 0:
 				ev.t.parked = true
+				ev.t.fresh = true
 				x.running--
 			case 1:
 				ev.t.ended = true
@@ -531,27 +543,34 @@ func (x *Exec) enabled() []transition {
 			}
 		case KSend:
 			n, c := object.VerifChanState(o.ch)
-			can := x.closed[o.ch] || (c > 0 && n < c)
+			can := x.closed[o.ch] || (c > 0 && n < c) || len(x.inRecv[o.ch]) > 0
 			if can || ctxDone(o.ctx) {
 				if can && ctxDone(o.ctx) && !x.sc.AllowSelectRace {
 					x.Ambiguous = fmt.Sprintf("t%d send: channel ready and context cancelled", t.ID)
 				}
 				out = append(out, transition{t: t})
-			} else if c == 0 {
-				for _, r := range x.tasks {
-					if r != t && r.parked && !r.ended && r.cur.kind == KRecv && r.cur.ch == o.ch {
-						out = append(out, transition{t: t, partner: r})
+			} else {
+				if c == 0 {
+					for _, r := range x.tasks {
+						if r != t && r.parked && !r.ended && r.cur.kind == KRecv && r.cur.ch == o.ch {
+							out = append(out, transition{t: t, partner: r})
+						}
 					}
+				}
+				if x.sc.ParkInside && t.fresh {
+					out = append(out, transition{t: t, early: true})
 				}
 			}
 		case KRecv:
 			n, _ := object.VerifChanState(o.ch)
-			can := x.closed[o.ch] || n > 0
+			can := x.closed[o.ch] || n > 0 || len(x.inSend[o.ch]) > 0
 			if can || ctxDone(o.ctx) {
 				if can && ctxDone(o.ctx) && !x.sc.AllowSelectRace {
 					x.Ambiguous = fmt.Sprintf("t%d recv: channel ready and context cancelled", t.ID)
 				}
 				out = append(out, transition{t: t})
+			} else if x.sc.ParkInside && t.fresh {
+				out = append(out, transition{t: t, early: true})
 			}
 			// an unbuffered rendezvous is listed under the sender
 		}
@@ -605,7 +624,7 @@ func (x *Exec) describe() string {
 func run(sc *Scenario, prefix []int) (x *Exec, engineErr string) {
 	x = &Exec{sc: sc, byGid: map[int64]*Task{}, events: make(chan event, 256), closed: map[*object.Chan]bool{}, closeVC: map[*object.Chan]vc{},
 		chanVCs: map[*object.Chan][]vc{}, owner: map[any]*Task{}, readers: map[any]int{}, released: map[any]vc{}, locs: map[string]*locState{},
-		cancelVC: map[<-chan struct{}]vc{}, prefix: prefix, lastRun: -1, rootEndAt: -1}
+		cancelVC: map[<-chan struct{}]vc{}, inRecv: map[*object.Chan][]*Task{}, inSend: map[*object.Chan][]*Task{}, prefix: prefix, lastRun: -1, rootEndAt: -1}
 	if sc.Setup != nil {
 		x.State = sc.Setup()
 	}
@@ -698,14 +717,19 @@ func run(sc *Scenario, prefix []int) (x *Exec, engineErr string) {
 		used := make([]bool, len(en))
 		lastEnabled := false
 		for _, tr := range en {
-			if tr.t.ID == x.lastRun {
+			if tr.t.ID == x.lastRun && !tr.early {
 				lastEnabled = true
+			}
+		}
+		for i, tr := range en {
+			if tr.early {
+				used[i] = true // listed last: entering a blocking operation early is never the default
 			}
 		}
 		if x.sc.Fair > 0 {
 			best := -1
 			for i, tr := range en {
-				if tr.t.waiting >= x.sc.Fair && (best < 0 || tr.t.waiting > en[best].t.waiting) {
+				if !tr.early && tr.t.waiting >= x.sc.Fair && (best < 0 || tr.t.waiting > en[best].t.waiting) {
 					best = i
 				}
 			}
@@ -730,6 +754,16 @@ func run(sc *Scenario, prefix []int) (x *Exec, engineErr string) {
 			if !used[i] {
 				order = append(order, i)
 			}
+		}
+		for i, tr := range en {
+			if tr.early {
+				order = append(order, i)
+			}
+		}
+		if len(order) > 0 && en[order[0]].early {
+			// only early entries are possible: nobody can run, which is a deadlock of the scenario
+			x.Deadlock = true
+			break
 		}
 		ids := make([]int, len(order))
 		for i, oi := range order {
@@ -763,7 +797,13 @@ func run(sc *Scenario, prefix []int) (x *Exec, engineErr string) {
 		// continued, or the scheduler put a starved / urgent task first
 		x.lastStillEnabled[len(x.lastStillEnabled)-1] = deliberate
 		x.lastRun = tr.t.ID
-		x.grant(tr)
+		for _, u := range x.tasks {
+			u.fresh = false
+		}
+		if msg := x.grant(tr); msg != "" {
+			x.abandonAll()
+			return x, msg
+		}
 		steps++
 		if steps > maxSteps {
 			x.abandonAll()
@@ -793,6 +833,7 @@ func (x *Exec) quiesceUntilRegistered(n int) bool {
 				x.pending++
 			case 0:
 				ev.t.parked = true
+				ev.t.fresh = true
 				x.running--
 			case 1:
 				ev.t.ended = true
@@ -804,11 +845,15 @@ func (x *Exec) quiesceUntilRegistered(n int) bool {
 	}
 }
 
-func (x *Exec) grant(tr transition) {
+func (x *Exec) grant(tr transition) (engineErr string) {
 	t := tr.t
 	o := t.cur
+	if tr.early {
+		return x.grantEarly(t)
+	}
 	x.Trace = append(x.Trace, fmt.Sprintf("t%d:%s:%s", t.ID, o.kind, o.label+o.field))
 	x.hb(tr)
+	x.wake(t, o)
 	x.ctxGranted = ""
 	switch o.kind {
 	case KSend, KRecv, KWait, KSleep:
@@ -840,6 +885,86 @@ func (x *Exec) grant(tr transition) {
 		tr.partner.resume <- struct{}{}
 	}
 	t.resume <- struct{}{}
+	return ""
+}
+
+// grantEarly lets t enter its blocking channel operation and waits until it is blocked in the
+// channel's wait queue.
+func (x *Exec) grantEarly(t *Task) string {
+	o := t.cur
+	if !hchanAvailable() {
+		return "ParkInside: the channel wait queues cannot be read with this toolchain (self-test failed)"
+	}
+	x.Trace = append(x.Trace, fmt.Sprintf("t%d:%s-blocks-inside:%s", t.ID, o.kind, o.label))
+	c := x.clockOf(t)
+	c[t.ID]++
+	if o.kind == KSend {
+		x.inSend[o.ch] = append(x.inSend[o.ch], t)
+		x.chanVCs[o.ch] = append(x.chanVCs[o.ch], c.copy()) // its value is received after the buffered ones
+	} else {
+		x.inRecv[o.ch] = append(x.inRecv[o.ch], t)
+	}
+	t.parked = false
+	t.inflight = true
+	t.resume <- struct{}{}
+	deadline := time.Now().Add(10 * time.Second)
+	for {
+		r, s := chanWaiters(o.ch.Value())
+		if r == len(x.inRecv[o.ch]) && s == len(x.inSend[o.ch]) {
+			return ""
+		}
+		if time.Now().After(deadline) {
+			return fmt.Sprintf("ParkInside: t%d did not block inside its %s (queues: %d receivers, %d senders)", t.ID, o.kind, r, s)
+		}
+		runtime.Gosched()
+	}
+}
+
+// wake accounts for the tasks blocked inside a channel operation that the transition about to be
+// granted releases: they run on to their next scheduling point like any granted task.
+func (x *Exec) wake(t *Task, o opInfo) {
+	release := func(w *Task, from vc) {
+		w.inflight = false
+		wc := x.clockOf(w)
+		wc[w.ID]++
+		if from != nil {
+			wc.join(from)
+		}
+		x.running++
+		x.Trace = append(x.Trace, fmt.Sprintf("t%d:woken-by-t%d", w.ID, t.ID))
+	}
+	c := x.clockOf(t)
+	switch o.kind {
+	case KSend:
+		if q := x.inRecv[o.ch]; len(q) > 0 && !x.closed[o.ch] {
+			// the value goes straight to the first blocked receiver
+			x.inRecv[o.ch] = q[1:]
+			if vq := x.chanVCs[o.ch]; len(vq) > 0 {
+				x.chanVCs[o.ch] = vq[:len(vq)-1] // hb() queued this send's clock: it is consumed here
+			}
+			release(q[0], c)
+		}
+	case KRecv:
+		if q := x.inSend[o.ch]; len(q) > 0 {
+			// a slot (or the rendezvous) becomes free for the first blocked sender
+			x.inSend[o.ch] = q[1:]
+			_, capacity := object.VerifChanState(o.ch)
+			if capacity == 0 {
+				release(q[0], c)
+			} else {
+				release(q[0], nil)
+			}
+		}
+	case KClose:
+		for _, w := range x.inRecv[o.ch] {
+			release(w, c)
+		}
+		for _, w := range x.inSend[o.ch] {
+			release(w, c)
+		}
+		delete(x.inRecv, o.ch)
+		delete(x.inSend, o.ch)
+	}
 }
 
 func (x *Exec) abandonAll() {
